@@ -319,6 +319,41 @@ def opSpanGraph (args : List String) : String :=
     | _, _, _, _, _ => "bad-op"
   | _ => "bad-op"
 
+/-- `bestbasis <sin2> <tol> <metrics> <spans flat> <real choice>` : _find_best_basis.  Output: the model's choice, then four bits for
+the REAL choice (admissible angles, maximal metric sum, volume/area within the tolerance of the smallest, most orthogonal — the last two
+with a relative slack of 1e-9 for ties that floating point breaks differently) -/
+def opBestBasis (args : List String) : String :=
+  open Matid.BestBasis in
+  match args with
+  | [s2S, tolS, mS, spS, realS] =>
+    match parseRat? s2S, parseRat? tolS, parseList? String.toNat? mS, parseV3s? spS, parseList? String.toNat? realS with
+    | some sin2, some tol, some metrics, some spans, some real =>
+      let p : Params := { sin2 := sin2, tol := tol }
+      let eps : Rat := 1 / 1000000000
+      let v (i : Nat) : V3 := spans.getD i (0, 0, 0)
+      let choice := bestBasis p spans metrics
+      let bits : String :=
+        match real with
+        | [i, j, k] =>
+          let c := (i, j, k)
+          let mn := (minRat ((max3 p spans metrics).map (vol3 spans))).getD 0
+          let mo := (minRat ((small3 p spans metrics).map (orth3 spans))).getD 0
+          showBool ((adm3 p spans).contains c) ++ showBool ((max3 p spans metrics).contains c) ++ showBool (decide (vol3 spans c ≤ (1 + p.tol) * mn * (1 + eps))) ++
+            showBool (decide (orth3 spans c ≤ mo + eps))
+        | [i, j] =>
+          let c := (i, j)
+          let mn := (minRat ((max2 p spans metrics).map (area2 spans))).getD 0
+          let mxs := (minRat ((small2 p spans metrics).map fun c => -sin2Of spans c)).getD 0
+          showBool ((adm2 p spans).contains c) ++ showBool ((max2 p spans metrics).contains c) ++
+            showBool (decide (area2 spans c < (1 + p.tol) * (1 + p.tol) * mn * (1 + eps))) ++ showBool (decide (-sin2Of spans c ≤ mxs + eps))
+        | [i] =>
+          let mn := (minRat ((List.range spans.length).map fun t => V3.norm2 (v t))).getD 0
+          "11" ++ showBool (decide (V3.norm2 (v i) ≤ mn * (1 + eps))) ++ "1"
+        | _ => "0000"
+      showList toString choice ++ " " ++ bits
+    | _, _, _, _, _ => "bad-op"
+  | _ => "bad-op"
+
 /-- `extend <cell> <pbc> <cutoff> <positions>` -/
 def opExtend (args : List String) : String :=
   match args with
@@ -683,6 +718,7 @@ def step (line : String) : String :=
   | "region" :: args => opRegion args
   | "assemble" :: args => opAssemble args
   | "spangraph" :: args => opSpanGraph args
+  | "bestbasis" :: args => opBestBasis args
   | "withinbasis" :: args => opWithinBasis args
   | "query" :: args => opQuery args
   | "disp" :: args => opDisp args
